@@ -358,6 +358,252 @@ fn base_lattice(rng: &mut Rng, k: usize) -> (String, M) {
     }
 }
 
+
+// ------------------------------------------------------------------------------------------------
+// Branch-directed Niggli stream: an exact i64 replica of the step conditions of niggli.rs, used ONLY to
+// select integer-valued bases whose run passes through a given branch (coverage is measured by the Lean
+// model, not by this function).  For integers `x > EPS` is `x >= 1`, `|x| < EPS` is `x == 0`.
+
+type I3 = [[i64; 3]; 3];
+
+fn imul(a: &I3, b: &I3) -> I3 {
+    let mut c = [[0i64; 3]; 3];
+    for i in 0..3 {
+        for j in 0..3 {
+            for k in 0..3 {
+                c[i][j] += a[i][k] * b[k][j];
+            }
+        }
+    }
+    c
+}
+
+fn igram(b: &I3) -> I3 {
+    let mut g = [[0i64; 3]; 3];
+    for i in 0..3 {
+        for j in 0..3 {
+            for k in 0..3 {
+                g[i][j] += b[k][i] * b[k][j];
+            }
+        }
+    }
+    g
+}
+
+fn idet(m: &I3) -> i64 {
+    m[0][0] * (m[1][1] * m[2][2] - m[1][2] * m[2][1]) - m[0][1] * (m[1][0] * m[2][2] - m[1][2] * m[2][0])
+        + m[0][2] * (m[1][0] * m[2][1] - m[1][1] * m[2][0])
+}
+
+/// Branch codes `10*step + j` exactly as `niggliBranch` in Moyo/Model/Reduce.lean.
+fn niggli_sim(b0: &I3) -> Option<(std::collections::BTreeSet<u32>, I3)> {
+    let sg = |x: i64| x.signum();
+    let mut t: I3 = [[1, 0, 0], [0, 1, 0], [0, 0, 1]];
+    let mut seen = std::collections::HashSet::new();
+    let mut codes = std::collections::BTreeSet::new();
+    let mut step = 1u32;
+    let mut iters = 0;
+    while step <= 8 {
+        iters += 1;
+        if iters > 3000 {
+            return None;
+        }
+        let g = igram(&imul(b0, &t));
+        let (a, b, c) = (g[0][0], g[1][1], g[2][2]);
+        let (xi, eta, zeta) = (2 * g[1][2], 2 * g[0][2], 2 * g[0][1]);
+        let (sx, sy, sz) = (sg(xi), sg(eta), sg(zeta));
+        let two = |d: i64, sec: bool| if d > 0 { 1 } else if d == 0 { if sec { 2 } else { 3 } } else { 0 };
+        let three = |m: i64, bnd: i64, sec1: i64, sec2: i64| {
+            if m.abs() - bnd > 0 {
+                1
+            } else if m - bnd == 0 {
+                if sec1 > 0 { 2 } else if m + bnd == 0 && sec2 > 0 { 4 } else { 3 }
+            } else if m + bnd == 0 {
+                if sec2 > 0 { 4 } else { 5 }
+            } else {
+                0
+            }
+        };
+        let id: I3 = [[1, 0, 0], [0, 1, 0], [0, 0, 1]];
+        let (j, fired, m): (u32, bool, I3) = match step {
+            1 => {
+                let j = two(a - b, xi.abs() > eta.abs());
+                (j, j == 1 || j == 2, [[0, -1, 0], [-1, 0, 0], [0, 0, -1]])
+            }
+            2 => {
+                let j = two(b - c, eta.abs() > zeta.abs());
+                (j, j == 1 || j == 2, [[-1, 0, 0], [0, 0, -1], [0, -1, 0]])
+            }
+            3 => {
+                if sx * sy * sz > 0 {
+                    let f = |s: i64| if s == -1 { -1 } else { 1 };
+                    (1, true, [[f(sx), 0, 0], [0, f(sy), 0], [0, 0, f(sz)]])
+                } else {
+                    (0, false, id)
+                }
+            }
+            4 => {
+                if sx == -1 && sy == -1 && sz == -1 {
+                    (0, false, id)
+                } else if sx * sy * sz <= 0 {
+                    let mut i = if sx == 1 { -1 } else { 1 };
+                    let mut jj = if sy == 1 { -1 } else { 1 };
+                    let mut k = if sz == 1 { -1 } else { 1 };
+                    let mut code = 1;
+                    if i * jj * k == -1 {
+                        if sz == 0 {
+                            k = -1;
+                            code = 4;
+                        } else if sy == 0 {
+                            jj = -1;
+                            code = 3;
+                        } else {
+                            i = -1;
+                            code = 2;
+                        }
+                    }
+                    (code, true, [[i, 0, 0], [0, jj, 0], [0, 0, k]])
+                } else {
+                    (5, false, id)
+                }
+            }
+            5 => {
+                let j = three(xi, b, zeta - 2 * eta, -zeta);
+                (j, j == 1 || j == 2 || j == 4, [[1, 0, 0], [0, 1, -sx], [0, 0, 1]])
+            }
+            6 => {
+                let j = three(eta, a, zeta - 2 * xi, -zeta);
+                (j, j == 1 || j == 2 || j == 4, [[1, 0, -sy], [0, 1, 0], [0, 0, 1]])
+            }
+            7 => {
+                let j = three(zeta, a, eta - 2 * xi, -eta);
+                (j, j == 1 || j == 2 || j == 4, [[1, -sz, 0], [0, 1, 0], [0, 0, 1]])
+            }
+            _ => {
+                let sum = xi + eta + zeta + a + b;
+                let j = if sum < 0 { 1 } else if sum == 0 { if 2 * (a + eta) + zeta > 0 { 2 } else { 3 } } else { 0 };
+                (j, j == 1 || j == 2, [[1, 0, 1], [0, 1, 1], [0, 0, 1]])
+            }
+        };
+        codes.insert(10 * step + j);
+        if fired {
+            t = imul(&t, &m);
+        }
+        if fired && (step == 2 || step >= 5) {
+            step = 1;
+        } else {
+            step += 1;
+        }
+        if step == 1 && !seen.insert(t) {
+            break;
+        }
+    }
+    Some((codes, igram(&imul(b0, &t))))
+}
+
+/// Number of integer automorphisms with entries in {-1,0,1} of the quadratic form `g`
+/// (2 = only +-identity: no symmetry can relate two candidate cells).
+fn aut_order(g: &I3) -> usize {
+    let mut cols: Vec<Vec<[i64; 3]>> = vec![vec![], vec![], vec![]];
+    for x in -1..=1i64 {
+        for y in -1..=1i64 {
+            for z in -1..=1i64 {
+                let v = [x, y, z];
+                let mut q = 0;
+                for i in 0..3 {
+                    for j in 0..3 {
+                        q += v[i] * g[i][j] * v[j];
+                    }
+                }
+                for j in 0..3 {
+                    if q == g[j][j] {
+                        cols[j].push(v);
+                    }
+                }
+            }
+        }
+    }
+    let dot = |u: &[i64; 3], v: &[i64; 3]| {
+        let mut q = 0;
+        for i in 0..3 {
+            for j in 0..3 {
+                q += u[i] * g[i][j] * v[j];
+            }
+        }
+        q
+    };
+    let mut n = 0;
+    for u in &cols[0] {
+        for v in &cols[1] {
+            if dot(u, v) != g[0][1] {
+                continue;
+            }
+            for w in &cols[2] {
+                if dot(u, w) == g[0][2] && dot(v, w) == g[1][2] {
+                    let m: I3 = [[u[0], v[0], w[0]], [u[1], v[1], w[1]], [u[2], v[2], w[2]]];
+                    if idet(&m).abs() == 1 {
+                        n += 1;
+                    }
+                }
+            }
+        }
+    }
+    n
+}
+
+/// Every branch of every Niggli step that changes or could change the result (codes of `niggliBranch`).
+pub const NIGGLI_BRANCHES: [u32; 30] = [
+    11, 12, 13, 21, 22, 23, 31, 41, 42, 43, 44, 51, 52, 53, 54, 55, 61, 62, 63, 64, 65, 71, 72, 73, 74, 75, 81, 82, 83,
+    40,
+];
+
+/// Select small integer-valued bases (|entries| <= 8: every f64 operation on the metric is exact) whose
+/// Niggli run passes through each branch, preferring lattices without symmetry (`aut = 2`).
+fn niggli_branch_bases(rng: &mut Rng, quota: usize, trials: usize) -> Vec<(String, M)> {
+    let mut asym = std::collections::HashMap::<u32, usize>::new();
+    let mut sym = std::collections::HashMap::<u32, usize>::new();
+    let mut out = vec![];
+    for _ in 0..trials {
+        let bound = *rng.pick(&[2i64, 3, 4, 6, 8]);
+        let mut b: I3 = [[0; 3]; 3];
+        for i in 0..3 {
+            for j in 0..3 {
+                b[i][j] = rng.range(-bound, bound);
+            }
+        }
+        if idet(&b) == 0 {
+            continue;
+        }
+        let (codes, gred) = match niggli_sim(&b) {
+            Some(x) => x,
+            None => continue,
+        };
+        let want_a: Vec<u32> =
+            codes.iter().cloned().filter(|c| NIGGLI_BRANCHES.contains(c) && *asym.get(c).unwrap_or(&0) < quota).collect();
+        if want_a.is_empty() {
+            continue;
+        }
+        let is_asym = aut_order(&gred) == 2;
+        let want: Vec<u32> = if is_asym {
+            want_a
+        } else {
+            want_a.into_iter().filter(|c| *sym.get(c).unwrap_or(&0) < 2).collect()
+        };
+        if want.is_empty() {
+            continue;
+        }
+        for c in codes.iter() {
+            *(if is_asym { &mut asym } else { &mut sym }).entry(*c).or_insert(0) += 1;
+        }
+        let m = M::from_fn(|i, j| b[i][j] as f64);
+        out.push((format!("nigbr-{}-{}", if is_asym { "asym" } else { "sym" }, want[0]), m));
+        if NIGGLI_BRANCHES.iter().all(|c| *asym.get(c).unwrap_or(&0) >= quota) {
+            break;
+        }
+    }
+    out
+}
+
 // ------------------------------------------------------------------------------------------------
 // case emission
 
@@ -426,6 +672,21 @@ pub fn gen(tier: &str, seed: u64, out: &str) {
         for r in 0..3 {
             let bound = [2, 4, 6][r];
             let u = random_unimodular(&mut rng, bound);
+            let b2 = b * u.map(|e| e as f64);
+            let tag2 = format!("{}+U{}", tag, bound);
+            let n1 = emit_basis(&mut o, &tag2, &b2);
+            if let (Some(r0), Some(r1)) = (&n0, &n1) {
+                o.line(&format!("c14-pair {} ; {} ; {} ; {}", mfx(&b), mfx(&b2), mfx(r0), mfx(r1)), "holds", &tag2);
+            }
+        }
+    }
+    // branch-directed Niggli stream (exact ties of every step condition, lattices without symmetry preferred)
+    let (quota, trials) = if tier == "thorough" { (60, 3_000_000) } else { (6, 400_000) };
+    let mut rng2 = Rng::new(seed ^ 0xB4A9C4);
+    for (tag, b) in niggli_branch_bases(&mut rng2, quota, trials) {
+        let n0 = emit_basis(&mut o, &tag, &b);
+        for bound in [2, 4, 6] {
+            let u = random_unimodular(&mut rng2, bound);
             let b2 = b * u.map(|e| e as f64);
             let tag2 = format!("{}+U{}", tag, bound);
             let n1 = emit_basis(&mut o, &tag2, &b2);
